@@ -144,7 +144,9 @@ struct AttemptPlan {        // outcome of one TCP connection attempt / MQTT hand
 };
 
 struct Fault {
-    enum Kind { reset_c2b, reset_b2c, write_fail_delivered, eof_b2c, stall } kind = reset_c2b;
+    // write_stall: from the batch containing offset `at` on, writes stay pending (peer stopped reading, send buffer full),
+    // nothing of them is delivered and the broker sends nothing more; only closing the stream ends them
+    enum Kind { reset_c2b, reset_b2c, write_fail_delivered, eof_b2c, write_stall } kind = reset_c2b;
     int conn_ordinal = 0;   // n-th established TCP connection (0-based)
     size_t at = 0;          // byte offset in that direction (reset when exactly `at` bytes have crossed)
     int ec = 0;             // index into the reconnectable error set
@@ -185,6 +187,7 @@ struct Conn {
     bool broker_closed = false;       // broker will send nothing more
     std::string c2b_pending;          // broker side: unparsed bytes
     bool stalled = false;             // broker ignores input on this connection (silent)
+    bool write_stalled = false;       // fault write_stall fired: writes pend until the stream is closed
     std::shared_ptr<void> broker_state;
     std::deque<int> undelivered_bpkts;            // broker packets not yet completely read by the client, in stream order
     std::map<size_t, int> cpkt_at;                // c2b stream offset -> client packet id
